@@ -1033,6 +1033,15 @@ def mk_server_cfg(args: ArgsType) -> configparser.SectionProxy:
             value = args[opt]
             if test_cfg_val(opt, value):
                 cfg[opt] = arg2config(opt, opt_type, value)
+            elif (
+                value not in NULL_ARGS
+                and opt in cfg
+                and cfg[opt] != arg2config(opt, opt_type, value)
+            ):
+                # The value in effect is the same as the default, so it wouldn't
+                # normally be written - but the section holds a different value,
+                # which would come back to life on the next run.
+                cfg[opt] = arg2config(opt, opt_type, value)
 
     return cfg
 
